@@ -258,7 +258,10 @@ def judge_import(case, how="array", prev=None):
                 b.node_name_map = dict(nm)
                 tracks = b.build(df, src.copy(), scale=scale)
             else:
-                tracks = tracks_from_df(df, segmentation=src.copy(), scale=scale,
+                arr_ = src.copy()
+                if len(ids) % 3 == 0:
+                    arr_ = np.asfortranarray(arr_)  # e.g. a transposed (x, y, t) stack
+                tracks = tracks_from_df(df, segmentation=arr_, scale=scale,
                                         node_name_map=nm)
         except Exception as e:
             return [("import-raised", f"tracks_from_df raised {type(e).__name__}: {e} "
